@@ -89,6 +89,72 @@ Truncate(s, n, end) ==
   ELSE IF n <= Len(end) THEN end
   ELSE SubSeq(s, 1, n - Len(end)) \o end
 
+MinOf(a, b) == IF a <= b THEN a ELSE b
+StartsWith(s, p) == Len(s) >= Len(p) /\ SubSeq(s, 1, Len(p)) = p
+At(s, i, p) == i >= 1 /\ i + Len(p) - 1 <= Len(s) /\ SubSeq(s, i, i + Len(p) - 1) = p
+\* last occurrence of sub in s (0 if none)
+RECURSIVE FindLastFrom(_, _, _)
+FindLastFrom(s, sub, from) ==
+  IF from < 1 THEN 0 ELSE IF SubSeq(s, from, from + Len(sub) - 1) = sub THEN from ELSE FindLastFrom(s, sub, from - 1)
+FindLast(s, sub) == FindLastFrom(s, sub, Len(s) - Len(sub) + 1)
+ReplaceLast(s, old, new) ==
+  LET i == FindLast(s, old) IN
+  IF i = 0 THEN s ELSE SubSeq(s, 1, i - 1) \o new \o SubSeq(s, i + Len(old), Len(s))
+
+\* words: maximal runs of non-whitespace
+RECURSIVE Words(_, _)
+Words(s, cur) ==
+  IF s = "" THEN (IF cur = "" THEN <<>> ELSE <<cur>>)
+  ELSE IF Ch(s, 1) \in WsSet THEN (IF cur = "" THEN <<>> ELSE <<cur>>) \o Words(SubSeq(s, 2, Len(s)), "")
+  ELSE Words(SubSeq(s, 2, Len(s)), cur \o Ch(s, 1))
+\* single spaces between words, none around: the only shape whose "unchanged" is beyond doubt
+Canonical(s) == JoinStr(Words(s, ""), " ") = s
+
+\* percent-encoding (urllib.parse.quote_plus / unquote_plus) over printable ASCII
+Hex == "0123456789ABCDEF"
+UrlSafe == "ABCDEFGHIJKLMNOPQRSTUVWXYZabcdefghijklmnopqrstuvwxyz0123456789_.-~"
+Code(c) == Rank(c) + 31
+UrlEncCh(c) == IF Find(UrlSafe, c) > 0 THEN c ELSE IF c = " " THEN "+"
+               ELSE "%" \o Ch(Hex, (Code(c) \div 16) + 1) \o Ch(Hex, (Code(c) % 16) + 1)
+AsciiOnly(s) == \A i \in 1..Len(s) : Rank(Ch(s, i)) > 0
+UrlEncode(s) == MapCh(UrlEncCh, s)
+HexVal(c) == LET i == Find(Hex, UpCh(c)) IN i - 1           \* -1 if not a hex digit
+RECURSIVE UrlDecode(_)
+UrlDecode(s) ==
+  IF s = "" THEN ""
+  ELSE IF Ch(s, 1) = "+" THEN " " \o UrlDecode(SubSeq(s, 2, Len(s)))
+  ELSE IF Ch(s, 1) = "%" /\ Len(s) >= 3 /\ HexVal(Ch(s, 2)) >= 0 /\ HexVal(Ch(s, 3)) >= 0
+       THEN LET code == HexVal(Ch(s, 2)) * 16 + HexVal(Ch(s, 3)) IN
+            (IF code >= 32 /\ code <= 126 THEN Ch(Printable, code - 31) ELSE "?") \o UrlDecode(SubSeq(s, 4, Len(s)))
+  ELSE Ch(s, 1) \o UrlDecode(SubSeq(s, 2, Len(s)))
+\* a percent sequence outside printable ASCII, or a malformed one, is outside this model
+RECURSIVE UrlDecodable(_)
+UrlDecodable(s) ==
+  IF s = "" THEN TRUE
+  ELSE IF Ch(s, 1) = "%" THEN /\ Len(s) >= 3 /\ HexVal(Ch(s, 2)) >= 0 /\ HexVal(Ch(s, 3)) >= 0
+                              /\ HexVal(Ch(s, 2)) * 16 + HexVal(Ch(s, 3)) \in 32..126
+                              /\ UrlDecodable(SubSeq(s, 4, Len(s)))
+  ELSE UrlDecodable(SubSeq(s, 2, Len(s)))
+
+\* html.unescape restricted to the entities escape writes (anything else with "&" is outside the model)
+Entities == << <<"&amp;", "&">>, <<"&lt;", "<">>, <<"&gt;", ">">>, <<"&#39;", "'">>, <<"&#34;", "\"">>, <<"&quot;", "\"">>, <<"&#x27;", "'">> >>
+RECURSIVE Unescape(_)
+Unescape(s) ==
+  IF s = "" THEN ""
+  ELSE IF \E i \in DOMAIN Entities : StartsWith(s, Entities[i][1])
+       THEN LET i == CHOOSE i \in DOMAIN Entities : StartsWith(s, Entities[i][1]) IN
+            Entities[i][2] \o Unescape(SubSeq(s, Len(Entities[i][1]) + 1, Len(s)))
+  ELSE Ch(s, 1) \o Unescape(SubSeq(s, 2, Len(s)))
+RECURSIVE OnlyKnownEntities(_)
+OnlyKnownEntities(s) ==
+  IF s = "" THEN TRUE
+  ELSE IF Ch(s, 1) # "&" THEN OnlyKnownEntities(SubSeq(s, 2, Len(s)))
+  ELSE IF \E i \in DOMAIN Entities : StartsWith(s, Entities[i][1])
+       THEN LET i == CHOOSE i \in DOMAIN Entities : StartsWith(s, Entities[i][1]) IN
+            OnlyKnownEntities(SubSeq(s, Len(Entities[i][1]) + 1, Len(s)))
+  \* a bare & that cannot start an entity (followed by a space, or last)
+  ELSE (Len(s) = 1 \/ Ch(s, 2) \in {" ", "&", "<"}) /\ OnlyKnownEntities(SubSeq(s, 2, Len(s)))
+
 \* result keeps `safe` only if every contributing text is safe
 MkText(s, safe) == [t |-> "str", v |-> s, safe |-> safe]
 IsSafe(v) == v.t = "str" /\ v.safe
@@ -102,6 +168,11 @@ TextCat(a, b, ae) ==
   THEN MkText((IF a.safe THEN a.v ELSE Escape(a.v)) \o (IF b.safe THEN b.v ELSE Escape(b.v)), TRUE)
   ELSE Str(a.v \o b.v)
 
+\* values whose equality is beyond doubt (no 0/1 against booleans), compared deeply
+RECURSIVE PlainEq(_)
+PlainEq(v) == \/ v.t \in {"str", "nil"} \/ (v.t = "int" /\ v.n \notin {0, 1})
+              \/ (v.t = "arr" /\ \A i \in DOMAIN v.v : PlainEq(v.v[i]))
+              \/ (v.t = "hash" /\ \A i \in DOMAIN v.h : PlainEq(v.h[i][2]))
 AllScalars(s) == \A i \in DOMAIN s : s[i].t \in {"str", "int"}
 Homogeneous(s) == (\A i \in DOMAIN s : s[i].t = "str") \/ (\A i \in DOMAIN s : s[i].t = "int")
 ValLt(a, b) == IF a.t = "str" THEN StrLt(a.v, b.v) ELSE a.n < b.n
@@ -140,7 +211,7 @@ SortKeyed(pairs) ==
 SortByKeys(seq, keys) ==
   LET sorted == SortKeyed([i \in DOMAIN seq |-> <<seq[i], keys[i]>>]) IN [i \in DOMAIN sorted |-> sorted[i][1]]
 
-Known == {"reject", "find", "find_index", "has", "append", "prepend", "upcase", "downcase", "capitalize", "strip", "lstrip", "rstrip",
+Known == {"slice", "replace_last", "remove_last", "truncatewords", "sort_natural", "sort_numeric", "escape_once", "url_encode", "url_decode", "reject", "find", "find_index", "has", "append", "prepend", "upcase", "downcase", "capitalize", "strip", "lstrip", "rstrip",
           "size", "escape", "replace", "replace_first", "remove", "remove_first", "split",
           "first", "last", "join", "default", "truncate", "reverse", "concat", "compact",
           "uniq", "sort", "map", "where", "sum", "plus", "minus", "times", "divided_by",
@@ -166,7 +237,7 @@ Apply(name, left, args, cfg) ==
     [] name = "strip"      -> IF Len(args) # 0 THEN Err("LiquidTypeError") ELSE MkText(Strip(ls), lsafe)
     [] name = "lstrip"     -> IF Len(args) # 0 THEN Err("LiquidTypeError") ELSE MkText(LStrip(ls), lsafe)
     [] name = "rstrip"     -> IF Len(args) # 0 THEN Err("LiquidTypeError") ELSE MkText(RStrip(ls), lsafe)
-    [] name = "escape"     -> IF Len(args) # 0 THEN Err("LiquidTypeError") ELSE MkText(Escape(ls), ae)
+    [] name = "escape"     -> IF Len(args) # 0 THEN Err("LiquidTypeError") ELSE MkText(IF ae THEN Escape(ls) ELSE EscapeHtml(ls), ae)
     [] name = "safe"       -> IF Len(args) # 0 THEN Err("LiquidTypeError") ELSE MkText(ls, ae)
     [] name = "size" ->
          IF Len(args) # 0 THEN Err("LiquidTypeError")
@@ -235,10 +306,9 @@ Apply(name, left, args, cfg) ==
     [] name = "concat" ->
          IF Len(args) # 1 THEN Err("LiquidTypeError")
          ELSE IF a1.t \notin {"arr", "range"} THEN Err("LiquidTypeError")
-         ELSE Arr(seq \o SeqOf(a1))
+         ELSE Arr(seq \o (IF a1.t = "arr" THEN a1.v ELSE RangeSeq(a1)))   \* the argument is taken as it is (not flattened)
     [] name = "uniq" ->
-         IF Len(args) = 0 THEN (IF \A i \in DOMAIN seq : seq[i].t \in {"str", "nil"} \/ (seq[i].t = "int" /\ seq[i].n \notin {0, 1})
-                                THEN Arr(UniqSeq(seq, <<>>)) ELSE Err("UNSPEC"))
+         IF Len(args) = 0 THEN (IF \A i \in DOMAIN seq : PlainEq(seq[i]) THEN Arr(UniqSeq(seq, <<>>)) ELSE Err("UNSPEC"))
          ELSE IF Len(args) # 1 \/ a1.t # "str" \/ ~AllHashes(seq) \/ Murky(seq, a1.v, Nil) THEN Err("UNSPEC")
          ELSE IF \E i \in DOMAIN seq : ~HHas(seq[i].h, a1.v) THEN Err("UNSPEC")
          ELSE Arr(UniqBy(seq, [i \in DOMAIN seq |-> Prop(seq[i], a1.v)], 1, <<>>))
@@ -291,5 +361,48 @@ Apply(name, left, args, cfg) ==
          ELSE LET base == IF ae /\ ~lsafe THEN Escape(ls) ELSE ls
                   sub  == IF name = "newline_to_br" THEN "<br />\n" ELSE ""
               IN MkText(ReplaceAll(ReplaceAll(base, "\r\n", sub), "\n", sub), ae)
+    [] name = "slice" ->
+         \* filter_reference.md: zero-based start (negative: from the end), length defaults to 1
+         IF Len(args) \notin {1, 2} THEN Err("LiquidTypeError")
+         ELSE IF a1.t # "int" \/ (Len(args) = 2 /\ a2.t # "int") THEN Err("UNSPEC")
+         ELSE IF left.t \notin {"str", "arr"} THEN Err("UNSPEC")
+         ELSE LET items == IF left.t = "str" THEN left.v ELSE left.v
+                  n == Len(items)
+                  len == IF Len(args) = 2 THEN a2.n ELSE 1
+                  st == IF a1.n < 0 THEN n + a1.n ELSE a1.n
+              IN IF st < 0 THEN Err("UNSPEC")          \* a start before the beginning
+                 ELSE LET piece == IF len <= 0 THEN SubSeq(items, 1, 0) ELSE SubSeq(items, st + 1, MinOf(st + len, n)) IN
+                      IF left.t = "str" THEN MkText(piece, lsafe) ELSE Arr(piece)
+    [] name \in {"replace_last", "remove_last"} ->
+         IF (name = "replace_last" /\ Len(args) # 2) \/ (name = "remove_last" /\ Len(args) # 1) THEN Err("LiquidTypeError")
+         ELSE IF ToStr(a1) = "" \/ lsafe THEN Err("UNSPEC")
+         ELSE Str(ReplaceLast(ls, ToStr(a1), IF name = "replace_last" THEN ToStr(a2) ELSE ""))
+    [] name = "truncatewords" ->
+         IF Len(args) > 2 THEN Err("LiquidTypeError")
+         ELSE IF Len(args) >= 1 /\ a1.t # "int" THEN Err("UNSPEC")
+         ELSE LET n0 == IF Len(args) >= 1 THEN a1.n ELSE 15
+                  n == IF n0 <= 0 THEN 1 ELSE n0
+                  end == IF Len(args) = 2 THEN ToStr(a2) ELSE "..."
+                  ws == Words(ls, "")
+              IN IF ~Canonical(ls) \/ lsafe THEN Err("UNSPEC")       \* whitespace normalisation: UNSPECIFIED.md
+                 ELSE IF Len(ws) <= n THEN Str(ls)
+                 ELSE Str(JoinStr(SubSeq(ws, 1, n), " ") \o end)
+    [] name = "sort_natural" ->
+         IF Len(args) # 0 THEN Err("UNSPEC")
+         ELSE IF ~(\A i \in DOMAIN seq : seq[i].t = "str") THEN Err("UNSPEC")
+         ELSE Arr(SortBy(LAMBDA x, y : StrLt(DownCase(x.v), DownCase(y.v)), seq))
+    [] name = "sort_numeric" ->
+         IF Len(args) # 0 THEN Err("UNSPEC")
+         ELSE IF ~(\A i \in DOMAIN seq : seq[i].t = "int" \/ (seq[i].t = "str" /\ IsIntStr(seq[i].v))) THEN Err("UNSPEC")
+         ELSE Arr(SortBy(LAMBDA x, y : NumLeft(x) < NumLeft(y), seq))
+    [] name = "escape_once" ->
+         IF Len(args) # 0 THEN Err("LiquidTypeError")
+         ELSE IF ae \/ ~OnlyKnownEntities(ls) THEN Err("UNSPEC") ELSE Str(EscapeHtml(Unescape(ls)))
+    [] name = "url_encode" ->
+         IF Len(args) # 0 THEN Err("LiquidTypeError")
+         ELSE IF ~AsciiOnly(ls) THEN Err("UNSPEC") ELSE MkText(UrlEncode(ls), ae)
+    [] name = "url_decode" ->
+         IF Len(args) # 0 THEN Err("LiquidTypeError")
+         ELSE IF ~AsciiOnly(ls) \/ ~UrlDecodable(ls) THEN Err("UNSPEC") ELSE Str(UrlDecode(ls))
     [] OTHER -> Err("UnknownFilterError")
 =============================================================================
